@@ -342,8 +342,9 @@ func VerifyHashed(pubx, puby, e, r, s []byte) (bool, error) {
 	}
 
 	// done sanity check
+	// t may have leading zero bytes; the scalar routines need exactly 32 big endian bytes
 	var tBytes []byte
-	tBytes = t.Bytes()
+	tBytes = ensure32Bytes(&t)
 
 	result, err = internal.ScalarMixedMult_Unsafe(s, pub, tBytes)
 	if err != nil {
